@@ -1379,6 +1379,97 @@ class TOEntry(EPBase):
         return [f"to.constraint={base['constraint']}", f"to.groups={len({r[0] for r in base['rows']})}", f"to.gnames={base['gnames']}"]
 
 
+# ===================================================================== entry point: reductions with control features
+class RedCFEntry(EPBase):
+    """ExponentiatedGradient / GridSearch fitted with `control_features=` (accepted by the parity moments' load_data) and
+    asked to predict on a SECOND, separately indexed feature matrix.  No model / oracle of its own: every variant must
+    reproduce the plain-list run exactly (multipliers, the rows the base learner saw, the predictors, the selection,
+    the predictions) -- a label-based join anywhere on the path shows up as a difference, since lists carry no labels."""
+    name = "redcf"
+    modes = ("container",)
+
+    def gen_base(self, rng, flavor=None):
+        while True:
+            n = rng.choice([6, 7, 8, 9, 10, 12])
+            k = rng.choice([2, 3, 3])
+            x = [rng.randrange(k) for _ in range(n)]
+            y = [rng.randint(0, 1) for _ in range(n)]
+            g = [rng.choice("ab") for _ in range(n)]
+            c = [rng.choice(["u", "v"]) for _ in range(n)]
+            cells = {(gi, ci) for gi, ci in zip(g, c)}
+            if len(set(y)) < 2 or len(set(x)) < 2 or len(cells) < 4:
+                continue
+            return {"x": x, "y": y, "g": g, "c": c, "algo": rng.choice(["gs", "gs", "eg"]),
+                    "moment": rng.choice(["DP", "TPR", "EO", "ERP"]), "px": [rng.randrange(k) for _ in range(rng.choice([3, 5]))],
+                    "lkind": rng.choice(["all", "threshold"])}
+
+    def argdom(self, base):
+        c = ["list", "nd", "nd2", "ser", "df"]
+        return {"X": ["nd", "df"], "y": c, "sf": c, "cf": c, "pX": ["nd", "df"]}
+
+    def baseline(self, base):
+        return {"X": sp("nd"), "y": sp("list"), "sf": sp("list"), "cf": sp("list"), "pX": sp("nd")}
+
+    def run(self, base, var):
+        import fairlearn.reductions as red
+        tag = f"c12cf-{os.getpid()}-{next(_COUNTER)}"
+        try:
+            X = xmat(base["x"], var["X"])
+            pX = xmat(base["px"], var["pX"])
+            mom = getattr(red, c06mod.MOMENTS[RED_MOMENTS[base["moment"]]])(difference_bound=0.05)
+            kw = dict(sensitive_features=vec(base["g"], var["sf"], "sf"), control_features=vec(base["c"], var["cf"], "cf"))
+            if base["algo"] == "gs":
+                est = red.GridSearch(RecLearner(base["lkind"], tag, "nd"), mom, grid_size=5, grid_limit=2.0)
+            else:
+                est = red.ExponentiatedGradient(RecLearner(base["lkind"], tag, "nd"), constraints=mom, eps=0.05, max_iter=4,
+                                                nu=1e-6, eta0=2.0)
+            est.fit(X, vec(base["y"], var["y"], "y"), **kw)
+            lam = est.lambda_vecs_
+            out = {"lam_index": [[str(v) for v in (t if isinstance(t, tuple) else (t,))] for t in lam.index],
+                   "lam": [[float(v) for v in lam[c].tolist()] for c in lam.columns],
+                   "train": [[int(v) for v in np.asarray(p.predict(X)).reshape(-1)] for p in est.predictors_],
+                   "records": [{"x": r.get("x"), "y": [int(v) for v in r["y"]], "w": [float(v) for v in r["w"]]}
+                               for r in RECORDS.pop(tag, [])]}
+            if base["algo"] == "gs":
+                out["best_idx"] = int(est.best_idx_)
+                out["predict"] = [int(v) for v in np.asarray(est.predict(pX)).reshape(-1)]
+            else:
+                out["weights"] = [float(v) for v in est.weights_]
+                out["pmf1"] = [float(v) for v in np.asarray(est._pmf_predict(pX))[:, 1]]
+            return out
+        except Exception as e:  # noqa: BLE001
+            RECORDS.pop(tag, None)
+            return exc_token(e)
+
+    def plan(self, base, out):
+        return []
+
+    def judge(self, base, out, model):
+        probs = []
+        xs = [float(v) for v in base["x"]]
+        for r in out.get("records", []):
+            if r.get("x") != xs:
+                probs.append(Problem("property", f"the base learner was fitted on feature rows {r.get('x')} instead of {xs}",
+                                     "C12.red.learner_rows"))
+                break
+        return probs
+
+    def expected_rejection(self, base, out0):
+        return out0.get("exc") == "ValueError" and "at least one non-zero" in out0.get("msg", "")
+
+    def shrink(self, base):
+        n = len(base["y"])
+        for i in range(n):
+            b = dict(base)
+            for k in ("x", "y", "g", "c"):
+                b[k] = base[k][:i] + base[k][i + 1:]
+            if len(set(b["y"])) == 2 and len(set(b["x"])) >= 2 and len({(a, c_) for a, c_ in zip(b["g"], b["c"])}) == 4:
+                yield b
+
+    def tags(self, base):
+        return [f"redcf.algo={base['algo']}", f"redcf.moment={base['moment']}"]
+
+
 # ===================================================================== entry point: the conversion glue itself
 # The functions through which fairlearn turns user containers into positional data, run DIRECTLY on the containers
 # and compared with (a) the Lean container model (`Model/Container.lean`, op `cont.place`) driven by the conversion
@@ -1409,7 +1500,7 @@ def sites_clean():
 def conv_for(entry, arg, guard=None):
     """conversion class of one argument of one lifted site (worst class when several sinks match)"""
     st = lifted_sites() or []
-    hits = [r[3] for r in st if r[0] == entry and r[1].split(" [")[0].split("+")[0] == arg
+    hits = [r[3] for r in st if r[0] == entry and (arg is None or r[1].split(" [")[0].split("+")[0] == arg)
             and (guard is None or f":{guard}]" in r[1])]
     if guard == "list":
         hits = [h for h in hits if h != "listOf"] or hits       # the map(..) sink is the list-of-lists branch
@@ -1504,7 +1595,7 @@ class ContEntry(EPBase):
 
     def _convs(self, var):
         val = [conv_for("_validate_and_reformat_input", a2) for _, a2 in self.ARGS_VAL]
-        thr = [conv_for("ThresholdOptimizer._reformat_data_into_dict", "additional_data", GUARD_OF[var[a]["c"]])
+        thr = [conv_for("ThresholdOptimizer._reformat_data_into_dict", None, GUARD_OF[var[a]["c"]])
                for a in self.ARGS_THR]
         return val, thr
 
@@ -1575,7 +1666,7 @@ class ContEntry(EPBase):
 
 
 # ===================================================================== the check
-EPS = {e.name: e for e in (MFEntry(), FMEntry(), MomEntry(), EGEntry(), GSEntry(), TOEntry(), ContEntry())}
+EPS = {e.name: e for e in (MFEntry(), FMEntry(), MomEntry(), EGEntry(), GSEntry(), TOEntry(), ContEntry(), RedCFEntry())}
 _BASE_CACHE = {}
 
 
@@ -1659,7 +1750,7 @@ class CHECK(Check):
                    "every group has both labels for ThresholdOptimizer and GridSearch")
 
     # ---------------------------------------------------------------- generation
-    NBASES = {"mf": 4, "fm": 5, "mom": 6, "eg": 4, "gs": 4, "to": 5, "cont": 3}
+    NBASES = {"mf": 4, "fm": 5, "mom": 6, "eg": 4, "gs": 4, "to": 5, "cont": 3, "redcf": 3}
 
     def _cases_for(self, rng, ep, tier, flavor=None, nperm=2, nrel=2):
         """one pairwise-covering array of (container, index kind) per call, its rows dealt out over several base datasets
@@ -1709,6 +1800,8 @@ class CHECK(Check):
                     cs = self._cases_for(rng, ep, tier, flavor)
                     if ep.name in ("eg", "gs") and tier == "quick":
                         cs = rng.sample(cs, min(len(cs), 36))
+                    if ep.name == "redcf" and tier == "quick":
+                        cs = rng.sample(cs, min(len(cs), 16))
                     chunk.append(cs)
             # interleave so that a truncated run still covers every entry point
             while any(chunk):
@@ -1719,7 +1812,7 @@ class CHECK(Check):
 
     def exhaustive(self, tier):
         rng = random.Random(12)
-        for name in ("fm", "eg", "gs", "mom"):
+        for name in ("cont", "fm", "eg", "gs", "mom"):
             ep = EPS[name]
             reps = 8 if name == "mom" else 1
             for _ in range(reps):
